@@ -28,7 +28,7 @@ Proof. destruct o; cbn; congruence. Qed.
 
 Lemma step_retry_ok : forall fuel s o out s',
   wf_net (nt s) = true -> 1 <= recvsize s -> is_framing_op o = true ->
-  timeouts (nt s) <= fuel ->
+  net_size (nt s) <= fuel ->
   step_retry fuel s o = (out, s') ->
   spec_framing (maxsize s) (remaining s) o = Some (out, remaining s') /\
   wf_net (nt s') = true /\ same_rest s s'.
@@ -37,14 +37,13 @@ Proof.
     destruct (step s o) as [o1 s1] eqn:E;
     pose proof (step_recv_ok _ _ _ _ W R (framing_is_recv _ Ho) E) as (W1 & SR & _ & Hcase);
     destruct Hcase as [(e & -> & Hr & Ht)|(Hnt & Ht & Hcase)].
-  - (* no retries left but interrupted: the network had no interruption left *)
-    unfold timeouts in F. rewrite Ht in F. cbn in F. lia.
+  - (* no retries left but interrupted: impossible, every interruption shrinks the network *)
+    destruct Ht as [Hs _]. lia.
   - rewrite Hnt in H. inversion H; subst. split; [|auto]. destruct o; try discriminate; exact Hcase.
   - (* interrupted: repeat *)
-    cbn [is_interrupt] in H. rewrite (intrs_head _ _ _ Ht) in H.
-    destruct SR as (SR1 & SR2 & SR3 & SR4 & SR5).
-    apply IH in H; try assumption; try lia;
-      [|unfold timeouts in *; rewrite Ht in F; cbn in F; lia].
+    cbn [is_interrupt] in H. rewrite (intr_by_is_intr _ _ _ _ Ht) in H.
+    destruct SR as (SR1 & SR2 & SR3 & SR4 & SR5 & SR6). destruct Ht as [Hs _].
+    apply IH in H; try assumption; try lia.
     destruct H as (H1 & H2 & H3). rewrite SR1, Hr in H1. split; [exact H1|]. split; [exact H2|].
     eapply same_rest_trans; [|exact H3]. repeat split; assumption.
   - rewrite Hnt in H. inversion H; subst. split; [|auto]. destruct o; try discriminate; exact Hcase.
@@ -56,16 +55,16 @@ Theorem run_retry_spec : forall ops s,
 Proof.
   induction ops as [|o r IH]; intros s W R Hops; [reflexivity|].
   cbn [forallb] in Hops. apply andb_true_iff in Hops as [Ho Hr].
-  cbn [run_retry]. destruct (step_retry (timeouts (nt s)) s o) as [out s'] eqn:E.
+  cbn [run_retry]. destruct (step_retry (net_size (nt s)) s o) as [out s'] eqn:E.
   unfold is_det_op in Ho. apply orb_true_iff in Ho as [Ho|Ho].
   - apply step_retry_ok in E; auto. destruct E as (Hs & W' & SR).
     destruct SR as (SR1 & SR2 & _).
     assert (Hnot : match o with SetMaxsize _ => False | _ => True end) by (destruct o; try discriminate; exact I).
     destruct o; try contradiction; cbn [spec_outs]; rewrite Hs; f_equal;
       rewrite <- SR1; apply IH; auto; lia.
-  - destruct o; try discriminate. destruct (timeouts (nt s)); cbn in E; inversion E; subst; clear E;
+  - destruct o; try discriminate. destruct (net_size (nt s)); cbn in E; inversion E; subst; clear E;
       cbn [spec_outs]; f_equal;
-      apply (IH (mkBS (rbuf s) (nt s) m (recvsize s) (sbuf s) (script s) (wire s))); auto.
+      apply (IH (mkBS (rbuf s) (nt s) m (recvsize s) (sbuf s) (script s) (wire s) (dl s))); auto.
 Qed.
 
 (* two networks that carry the same byte stream, however it is cut into
@@ -152,7 +151,7 @@ Proof.
         apply andb_true_iff in Hok as [Hok _]. apply is_prefix_split in Hok.
         rewrite Hok at 1. reflexivity.
   - destruct (is_send_op o) eqn:Hso.
-    + apply step_send_ok in H; auto. destruct H as ((SR1 & SR2 & SR3 & SR4) & _).
+    + apply step_send_ok in H; auto. destruct H as ((SR1 & SR2 & SR3 & SR4 & SR5) & _).
       unfold remaining. rewrite SR1, SR2, SR4.
       split; [|auto]. destruct o; try discriminate; destruct out; reflexivity.
     + destruct o; try discriminate. inversion H; subst. cbn. auto.
@@ -180,17 +179,17 @@ Lemma step_nonsend_same s o out s' :
   is_send_op o = false -> step s o = (out, s') -> wire s' = wire s /\ sbuf s' = sbuf s.
 Proof.
   intros Hso H. destruct o; try discriminate; cbn [step] in H.
-  + unfold recv_until in H. destruct (ru_loop _ _ _ _ _ _ _) as [[? ?|? ?] ?]; inversion H; auto.
+  + unfold recv_until, recv_until_dl in H. destruct (ru_loop _ _ _ _ _ _ _ _ _) as [[? ?|? ?] ?]; inversion H; auto.
   + unfold recv_size, recv_size_lim in H.
     destruct (match rbuf s with [] => _ | _ => _ end) as [[?|] ?]; [|inversion H; auto].
-    destruct (rs_loop _ _ _ _ _ _ _) as [[? ? ?|? ?] ?]; inversion H; auto.
+    destruct (rs_loop _ _ _ _ _ _ _ _ _) as [[? ? ?|? ?] ?]; inversion H; auto.
   + unfold peek in H. destruct (Nat.leb _ _); [inversion H; auto|].
     unfold recv_size, recv_size_lim in H.
     destruct (match rbuf s with [] => _ | _ => _ end) as [[?|] ?]; [|inversion H; auto].
-    destruct (rs_loop _ _ _ _ _ _ _) as [[? ? ?|? ?] ?]; inversion H; auto.
+    destruct (rs_loop _ _ _ _ _ _ _ _ _) as [[? ? ?|? ?] ?]; inversion H; auto.
   + unfold recv_close, recv_size_lim in H.
     destruct (match rbuf s with [] => _ | _ => _ end) as [[?|e0] ?]; [|destruct e0; inversion H; auto].
-    destruct (rs_loop _ _ _ _ _ _ _) as [[? ? ?|[] ?] ?]; inversion H; auto.
+    destruct (rs_loop _ _ _ _ _ _ _ _ _) as [[? ? ?|[] ?] ?]; inversion H; auto.
   + unfold recv in H. destruct (Nat.leb _ _); [inversion H; auto|].
     destruct (rbuf s); [|inversion H; auto].
     destruct (sock_recv _ _) as [[?|] ?]; [|inversion H; auto].
@@ -239,7 +238,7 @@ Lemma recv_prefix s k out s' :
              remaining s' = skipn (length d) (remaining s)).
 Proof.
   intros W R H. destruct (recv_ok s k out s' W R H) as (_ & _ & _ & [(e & A & B & C)|(_ & _ & C)]);
-    [left; exists e; repeat split; auto; exact (intrs_head _ _ _ C)|right; exact C].
+    [left; exists e; repeat split; auto; exact (intr_by_is_intr _ _ _ _ C)|right; exact C].
 Qed.
 
 Lemma conservation_init mx rs n sc ops obs sf :
